@@ -80,6 +80,19 @@ def check_basis(ctx, kind, X, nm, idx, layout=None):
             return
         # the caller goes on using its own array: a fitted basis is a function of the data at fit time
         Xin[...] = Xin * 0 + 7
+        if kind == "svd" and rng.random() < 0.3:
+            # the estimator methods the basis inherits from scikit-learn are public too: projecting other data (transform) or running
+            # the inherited fit_transform on another batch must leave modes and inverse consistent with each other (whichever batch
+            # they then belong to: only the clauses that do not name the training data are judged afterwards)
+            Xo = np.array([[rng.randint(-6, 6) for _ in range(nf)] for _ in range(ne)], dtype=float)
+            try:
+                b.transform(Xo.copy())
+                if rng.random() < 0.7:
+                    b.fit_transform(Xo.copy())
+                    base["inherited_fit_transform"] = Xo.tolist()
+                ctx.count("svd_inherited_estimator_calls")
+            except Exception:
+                pass
     full = np.array(b.matrix_representation())
     nmodes = b.n_basis_modes
     cols_expected = min(nmodes, ne) if kind == "svd" else nmodes
@@ -136,7 +149,7 @@ def check_basis(ctx, kind, X, nm, idx, layout=None):
             inv = b.matrix_inverse(n_basis_modes=k)
             if not np.array_equal(np.array(inv), full[:, :k].T):
                 return bad("inverse-transpose", f"matrix_inverse({k}) is not the transpose of the first {k} modes", k=k)
-        if kind == "svd":
+        if kind == "svd" and "inherited_fit_transform" not in base:
             # data of rank ≤ k are reproduced exactly by k modes
             r = oracles.rank_of(oracles.fmat(X))
             k = full.shape[1]
